@@ -58,6 +58,29 @@ type c09Result struct {
 func c09Inputs() (a, b [][]byte) {
 	prof := lib.Profile()
 	_ = prof
+	// The three inputs every goroutine hammers most (indices 0-2) include two streams dense in
+	// local timestamps (monitoring, monitoring_info, activity), each with its own zone offsets:
+	// whatever the library shares between decodes of different zones is exercised on every record.
+	for k := uint64(0); k < 2; k++ {
+		rng := lib.NewRand("C09.poolA.localtime", k)
+		ft := []byte{32, 4}[k]
+		o := lib.GenOpts{FileType: ft, Mesgs: c12Mesgs[ft], Records: 150, Locals: 3, BigEndian: 50, MaxFields: 3, NoTimeZero: true, TimeModel: 100,
+			ForceFields: func(r *lib.Rand, g uint16) []byte {
+				out := []byte{253}
+				if r.Chance(9, 10) {
+					switch g {
+					case 34:
+						out = append(out, 5)
+					case 55:
+						out = append(out, 11)
+					case 103:
+						out = append(out, 0)
+					}
+				}
+				return out
+			}}
+		a = append(a, lib.NewPlanGen(rng, o).Fill().Bytes())
+	}
 	for k := uint64(0); k < 10; k++ {
 		rng := lib.NewRand("C09.poolA", k)
 		ft := []byte{2, 1, 5, 32, 9}[k%5]
